@@ -28,7 +28,7 @@ RULE = ("part class = one of the kit classes that derive their structure from th
         "distinct spec.")
 ASSUMPTIONS = [
     "the signature-free class is the generic module/vector class deriving its structure from the same enzyme",
-    "candidates of characterize are the direct subclasses at call time plus the class itself when concrete",
+    "candidates of characterize are the concrete types below the base (directly, or through abstract grouping classes) at call time, plus the base itself when concrete",
 ]
 LEVEL_TEXT = ("Exploration: sampled records per part type against an independent "
               "two-clause oracle; every kit part type is hit many times per run "
@@ -137,7 +137,17 @@ def check(spec, ctx):
     role = "module" if spec["role"] == "M" else "vector"
     b = _record(role, g, spec["rec"])
     record = b.record()
-    cands = list(base.__subclasses__())
+    # candidate types: the concrete types below the base (directly or through
+    # abstract grouping classes), and the base itself when it is concrete
+    cands = []
+    todo = list(base.__subclasses__())
+    while todo:
+        c = todo.pop(0)
+        if kits.is_concrete(c):
+            if c not in cands:
+                cands.append(c)
+        else:
+            todo.extend(c.__subclasses__())
     if kits.is_concrete(base):
         cands.append(base)
     accepting = []
